@@ -1,0 +1,18 @@
+//go:build verif
+// +build verif
+
+// Contracts for deductive verification (govc, /verif). Comment-only file.
+
+package single
+
+// A block is accepted only from the configured miner, with an id that is the
+// hash of its header and a signature over that id under a key that hashes to the
+// miner's address.
+//@ func SingleConsensus.CheckMinerMatch
+//@   property C16
+//@   let cc = s.ctx.Crypto
+//@   let k = cc.GetEcdsaPublicKeyFromJsonStr(block.GetPublicKey())
+//@   ensures id_is_header_hash: result0 ==> block.MakeBlockId#1() == nil && bytesEq(block.MakeBlockId(), block.GetBlockid())
+//@   ensures configured_miner: result0 ==> str(block.GetProposer()) == s.config.Miner
+//@   ensures key_binds_address: result0 ==> cc.GetEcdsaPublicKeyFromJsonStr#1(block.GetPublicKey()) == nil && cc.VerifyAddressUsingPublicKey(str(block.GetProposer()), k) && cc.GetAddressFromPublicKey#1(k) == nil && cc.GetAddressFromPublicKey(k) == str(block.GetProposer())
+//@   ensures signature_valid: result0 ==> cc.VerifyECDSA(k, block.GetSign(), block.GetBlockid())
